@@ -154,7 +154,11 @@ func (r *Registry) tree(v reflect.Value) M {
 		if t.Kind() == reflect.String {
 			return M{"k": "enum", "type": typeName(t), "base": "str", "lit": v.String()}
 		}
-		return M{"k": "enum", "type": typeName(t), "base": "num", "lit": jsonLit(v.Interface())}
+		members := []string{}
+		for _, m := range r.Enums[t] {
+			members = append(members, jsonLit(m))
+		}
+		return M{"k": "enum", "type": typeName(t), "base": "num", "lit": jsonLit(v.Interface()), "members": members}
 	}
 	if t.ConvertibleTo(timeType) && t.Kind() == reflect.Struct {
 		tm := v.Convert(timeType).Interface().(time.Time)
